@@ -138,8 +138,14 @@ def _weave_states_in_region(
                     if_state = _weave_states_in_region(op.true_region, state.copy(), rewriter)
                     else_state = _weave_states_in_region(op.false_region, state.copy(), rewriter)
 
+                    # an accelerator whose state is invalidated in (at least) one of
+                    # the branches has no known state after the if:
+                    invalidated = [k for k in state if k not in if_state or k not in else_state]
+
                     # calculate the delta:
                     delta = calc_if_state_delta(state, if_state, else_state)
+                    for k in invalidated:
+                        del state[k]
                     # no delta = nothing to do
                     if not delta:
                         continue
@@ -185,8 +191,11 @@ def _weave_states_in_region(
                     updated_accelerators = tuple(sorted(find_all_acc_names_in_region(op.body)))
 
                     # check which states got new uses:
-                    # no state change in loop => nothing to do
+                    # no state change in loop => nothing to do, unless
+                    # something inside the loop resets the accelerator state
                     if not updated_accelerators:
+                        if has_accfg_effects(op):
+                            state.clear()
                         continue
 
                     # insert empty setup ops for all setups that don't have a state before the loop
@@ -251,6 +260,14 @@ def _weave_states_in_region(
                 # any other op that contains ops:
                 elif op.regions:
                     _weave_states_in_region(op, dict(), rewriter)
+                    # we don't know how often (or if) the regions are executed, so we
+                    # no longer know the state of the accelerators they touch:
+                    if has_accfg_effects(op):
+                        state.clear()
+                    else:
+                        for region in op.regions:
+                            for acc_name in find_all_acc_names_in_region(region):
+                                state.pop(acc_name, None)
                 # Check if the op has effects on accfg state
                 elif has_accfg_effects(op):
                     state.clear()
